@@ -274,7 +274,7 @@ Definition prop_cli_with (hok : bytes -> bytes -> option bool) (hdrdec : bytes -
             end
           | Err _ => false
           end in
-        if negb guard then fail2 "get-block-guard-false" "getblock"
+        if negb (is_identity kp) && negb guard then fail2 "get-block-guard-false" "getblock"
         else if is_identity kp then
           if ok && bytes_eqb data (c_digest kp) then VT "ok"%string else fail2 "get-block" "getblock-identity"
         else match first_with_mh key (a_blocks a0) with
